@@ -3,6 +3,7 @@ package main
 import (
 	"fmt"
 	"go/ast"
+	"go/token"
 	"strings"
 )
 
@@ -21,6 +22,7 @@ func init() {
 
 func checkC09(c *Ctx) {
 	c09IdentClasses(c)
+	c09RuneError(c)
 	parserRules(c)
 	escapeRules(c)
 }
@@ -76,4 +78,74 @@ func c09IdentClasses(c *Ctx) {
 	})
 	c.check("ident.classified-through-shared-predicates", f.Name, f.Decl.Pos(), inline == 0 && nDigit >= 2 && nLetter >= 1 && !byteIndexed,
 		fmt.Sprintf("IsValidIdent must classify runes only through isLetter/isDigit (leading-digit test and body), on decoded runes, never on bytes or with inline ranges: inline range tests=%d, isDigit calls=%d, isLetter calls=%d, byte-indexed=%v", inline, nDigit, nLetter, byteIndexed))
+}
+
+// c09RuneError: utf8.DecodeRune reports invalid UTF-8 as (RuneError, 1); a
+// well-formed U+FFFD decodes to the same rune with width 3. Code that treats
+// RuneError as "invalid byte" without looking at the width mangles strings
+// that legitimately contain U+FFFD.
+func c09RuneError(c *Ctx) {
+	exceptions := map[string]string{
+		"cue/literal.isSimple": "conservative classification: any U+FFFD selects the general (escaping) path, nothing is dropped",
+	}
+	n := 0
+	for _, rel := range []string{"cue/literal", "cue/scanner"} {
+		for _, f := range c.funcs(c.pkg(rel)) {
+			info := f.Info()
+			k := 0
+			var visit func(cond ast.Expr, body ast.Node, pos token.Pos)
+			visit = func(cond ast.Expr, body ast.Node, pos token.Pos) {
+				tests := false
+				widthOne := false
+				ast.Inspect(cond, func(x ast.Node) bool {
+					be, ok := x.(*ast.BinaryExpr)
+					if !ok {
+						return true
+					}
+					if be.Op == token.EQL || be.Op == token.NEQ {
+						if exprString(be.X) == "utf8.RuneError" || exprString(be.Y) == "utf8.RuneError" {
+							tests = true
+						}
+						if v, ok := constInt(info, be.Y); ok && v == 1 {
+							if _, isID := ast.Unparen(be.X).(*ast.Ident); isID {
+								widthOne = true
+							}
+						}
+					}
+					return true
+				})
+				if !tests {
+					return
+				}
+				// the width may also be tested right inside the branch
+				if !widthOne && body != nil {
+					ast.Inspect(body, func(x ast.Node) bool {
+						if be, ok := x.(*ast.BinaryExpr); ok && be.Op == token.EQL {
+							if v, ok := constInt(info, be.Y); ok && v == 1 {
+								widthOne = true
+							}
+						}
+						return true
+					})
+				}
+				n++
+				k++
+				reason, exc := exceptions[f.Name]
+				c.check("utf8.rune-error-needs-width", fmt.Sprintf("%s#%d", f.Name, k), pos, widthOne || exc,
+					"a test for utf8.RuneError must be paired with width == 1 (invalid byte) — a well-formed U+FFFD has the same rune value and width 3 "+reason)
+			}
+			ast.Inspect(f.Body, func(x ast.Node) bool {
+				switch s := x.(type) {
+				case *ast.IfStmt:
+					visit(s.Cond, s.Body, s.Pos())
+				case *ast.CaseClause:
+					for _, e := range s.List {
+						visit(e, s, s.Pos())
+					}
+				}
+				return true
+			})
+		}
+	}
+	c.expect("utf8.rune-error-needs-width", 4)
 }
